@@ -59,13 +59,15 @@ def gen_pool(rng):
             k = rng.randint(1, min(3, nv))
             vs = rng.sample(range(nv), k)
             terms = [[vi, {'m': m, 'n': variables[vi]['n'], 'v': [rnd(rng) for _ in range(m * variables[vi]['n'])]}] for vi in vs]
-            cons.append({'t': 'aff', 'rel': rng.choice(['<=', '<=', '>=']), 'terms': terms, 'rhs': [rnd(rng, 0.5, 3.0) for _ in range(m)]})
+            cons.append({'t': 'aff', 'rel': rng.choice(['<=', '<=', '>=']), 'terms': terms, 'rhs': [rnd(rng, 0.5, 3.0) for _ in range(m)],
+                         'sp': bool(rng.random() < 0.3)})
         elif r < 0.5:
             vi = rng.randrange(nv)
             k = rng.randint(1, 2)
             vs = rng.sample(range(nv), min(k, nv))
-            terms = [[vj, {'m': 1, 'n': variables[vj]['n'], 'v': [rnd(rng) for _ in range(variables[vj]['n'])]}] for vj in vs]
-            cons.append({'t': 'aff', 'rel': '==', 'terms': terms, 'rhs': [rnd(rng, -0.5, 0.5)]})
+            me = rng.choice([1, 1, 2])
+            terms = [[vj, {'m': me, 'n': variables[vj]['n'], 'v': [rnd(rng) for _ in range(me * variables[vj]['n'])]}] for vj in vs]
+            cons.append({'t': 'aff', 'rel': '==', 'terms': terms, 'rhs': [rnd(rng, -0.5, 0.5) for _ in range(me)], 'sp': bool(rng.random() < 0.3)})
         elif r < 0.62:
             cons.append({'t': 'max', 'vi': rng.randrange(nv), 'rhs': rnd(rng, 0.5, 3.0)})
         elif r < 0.74:
@@ -108,6 +110,9 @@ def gen_pool(rng):
     objs.append({'t': 'concave', 'vi': rng.choice(ones)})
     objs.append({'t': 'maxaff', 'vi': rng.choice(ones), 'a': rnd(rng, 0.5, 2.0), 'b': rnd(rng, 0.5, 2.0), 'c': rnd(rng)})
     objs.append({'t': 'sumvar', 'vi': rng.randrange(nv), 'sign': rng.choice([1.0, -1.0])})
+    a_, b_ = rng.randrange(nv), rng.randrange(nv)
+    objs.append({'t': 'affpwl', 'vi': a_, 'vj': b_, 'coef': [rnd(rng) for _ in range(variables[a_]['n'])]})      # dot(c, x) + sum(abs(y))
+    objs.append({'t': 'twopwl', 'vi': a_, 'vj': b_})                                                              # sum(abs(x)) + max(y)
     return {'variables': variables, 'constraints': cons, 'objectives': objs}
 
 
@@ -121,8 +126,8 @@ def spec_vars(spec):
         return [vi for vi, _ in spec['terms']]
     if t in ('max', 'abs', 'var', 'vector', 'concave', 'min', 'slice', 'sum', 'scaledabs', 'maxaff', 'sumvar'):
         return [spec['vi']]
-    if t == 'max2':
-        return [spec['vi'], spec['vj']]
+    if t in ('max2', 'affpwl', 'twopwl'):
+        return [spec['vi'], spec['vj']] if spec['vi'] != spec['vj'] else [spec['vi']]
     if t == 'sumabs':
         return [spec['vi']] + ([spec['extra']] if spec.get('extra') is not None else [])
     return []      # const / num
@@ -155,8 +160,10 @@ def gen_history(rng):
                 if c in present:
                     present.remove(c)
             ops.append(['del', c])
+        elif r < 0.50:
+            ops.append(['del_bad', rng.choice(['int', 'function', 'none', 'variable', 'list'])])
         elif r < 0.52:
-            ops.append(['del_bad', rng.choice(['int', 'function', 'none'])])
+            ops.append(['add_bad', rng.choice(['none', 'list', 'variable', 'function', 'string'])])
         elif r < 0.70:
             ops.append(['obj', rng.randrange(no)])
         elif r < 0.88:
@@ -167,7 +174,20 @@ def gen_history(rng):
             ops.append(['name', rng.choice(['lp1', '', 7])])
     if not any(o[0] == 'solve' for o in ops):
         ops.append(['solve', 'dense'])
-    return {'pool': pool, 'init_obj': init_obj, 'init_cons': init_cons, 'ops': ops}
+    case = {'pool': pool, 'init_obj': init_obj, 'init_cons': init_cons, 'ops': ops}
+    r = rng.random()
+    if r < 0.1 and init_cons:
+        case['init_cons'] = init_cons[:1]
+        case['init_form'] = 'single'          # op(objective, c) with one constraint instead of a list
+    elif r < 0.18:
+        case['init_cons'] = []
+        case['init_form'] = rng.choice(['none', 'omitted'])
+    elif r < 0.28 and init_cons:
+        case['init_cons'] = init_cons + [rng.choice(init_cons)]
+        case['init_form'] = 'list'            # a constraint twice in the initial list
+    elif r < 0.32:
+        case['init_form'] = rng.choice(['bad_tuple', 'bad_element'])
+    return case
 
 
 # ----------------------------------------------------------------------------- building the real objects
@@ -176,10 +196,12 @@ def build(pool):
     from cvxopt import matrix, modeling as M
     vs = [M.variable(v['n'], v['name']) for v in pool['variables']]
 
-    def aff(terms, m):
+    def aff(terms, m, sp=False):
+        from cvxopt import sparse as _sparse
         f = None
         for vi, A in terms:
-            t = matrix(A['v'], (A['m'], A['n']), 'd') * vs[vi]
+            Am = matrix(A['v'], (A['m'], A['n']), 'd')
+            t = (_sparse(Am) if sp else Am) * vs[vi]
             f = t if f is None else f + t
         return f
 
@@ -188,7 +210,7 @@ def build(pool):
         t = s['t']
         if t == 'aff':
             m = s['terms'][0][1]['m']
-            f = aff(s['terms'], m)
+            f = aff(s['terms'], m, s.get('sp', False))
             rhs = matrix(s['rhs'], (m, 1), 'd') if m > 1 else s['rhs'][0]
             c = (f <= rhs) if s['rel'] == '<=' else ((f >= rhs) if s['rel'] == '>=' else (f == rhs))
         elif t == 'max':
@@ -233,6 +255,10 @@ def build(pool):
             return vs[s['vi']]
         if t == 'num':
             return s['v']
+        if t == 'affpwl':
+            return M.dot(matrix(s['coef'], (len(s['coef']), 1), 'd'), vs[s['vi']]) + M.sum(abs(vs[s['vj']]))
+        if t == 'twopwl':
+            return M.sum(abs(vs[s['vi']])) + M.max(vs[s['vj']])
         if t == 'maxaff':
             x = vs[s['vi']]
             return M.max(s['a'] * x + s['c'], -s['b'] * x)
@@ -266,8 +292,25 @@ def run_history(case, journal):
     # reference model
     m_obj = case['init_obj']
     m_cons = list(case['init_cons'])
-    prob = M.op(mkobj(pool['objectives'][m_obj]), [cons[i] for i in m_cons])
+    form = case.get('init_form', 'list')
+    o0 = mkobj(pool['objectives'][m_obj])
+    if form in ('bad_tuple', 'bad_element'):
+        try:
+            M.op(o0, tuple(cons[i] for i in m_cons) if form == 'bad_tuple' else [cons[i] for i in m_cons] + [5])
+            return V('refusal-missing', 'op(objective, %s) was accepted' % form, op='init')
+        except TypeError:
+            bump('refused_operations')
+        form = 'list'
+    if form == 'single':
+        prob = M.op(o0, cons[m_cons[0]])
+    elif form == 'none':
+        prob = M.op(o0, None)
+    elif form == 'omitted':
+        prob = M.op(o0)
+    else:
+        prob = M.op(o0, [cons[i] for i in m_cons])
     obj_objects = {m_obj: prob.objective}
+    held = []       # (getter name, ids at the time): lists handed out earlier must not follow later edits
     effective_edits = 0
     nsolve = 0
 
@@ -296,6 +339,14 @@ def run_history(case, journal):
             return V('constraints-mismatch', 'after op %d (%s): inequalities()/equalities() differ from the model %s' % (i, opname, m_cons), op=opname)
         if list(map(id, c)) != list(map(id, a)) + list(map(id, b)):
             return V('constraints-mismatch', 'after op %d (%s): constraints() is not inequalities() + equalities()' % (i, opname), op=opname)
+        # repr() reads the same bookkeeping: total lengths of variables / inequalities / equalities
+        nums = [int(t_) for t_ in repr(prob).replace(',', ' ').split() if t_.isdigit()]
+        wantn = [sum(len(v) for v in got), sum(len(x) for x in a), sum(len(x) for x in b)]
+        if nums != wantn:
+            return V('repr-mismatch', 'after op %d (%s): repr() says %r, the lists say %r' % (i, opname, nums, wantn), op=opname)
+        for lst, ids_ in held:
+            if list(map(id, lst)) != ids_:
+                return V('lists-not-copies', 'after op %d (%s): a list returned earlier changed with the problem' % (i, opname), op=opname, direction='held')
         return None
 
     bad = check(-1, 'init')
@@ -322,8 +373,15 @@ def run_history(case, journal):
                     bump('deletes_of_present_constraint')
                 else:
                     bump('deletes_of_absent_constraint')
+            elif kind == 'add_bad':
+                arg = {'none': None, 'list': [cons[0]], 'variable': vs[0], 'function': vs[0] + 1, 'string': 'c'}[op[1]]
+                try:
+                    prob.addconstraint(arg)
+                    return V('refusal-missing', 'addconstraint(%s) was accepted' % op[1], op=kind)
+                except TypeError:
+                    bump('refused_operations')
             elif kind == 'del_bad':
-                arg = {'int': 5, 'function': vs[0] + 1, 'none': None}[op[1]]
+                arg = {'int': 5, 'function': vs[0] + 1, 'none': None, 'variable': vs[0], 'list': [cons[0]]}[op[1]]
                 try:
                     prob.delconstraint(arg)
                     return V('refusal-missing', 'delconstraint(%s) was accepted' % op[1], op=kind)
@@ -360,6 +418,9 @@ def run_history(case, journal):
                         del lst[0]
                     if getter() is lst:
                         return V('lists-not-copies', '%s() returned the same list object twice' % getter.__name__, op=kind)
+                    keep = getter()
+                    if len(held) < 8:
+                        held.append((keep, list(map(id, keep))))
             elif kind == 'solve':
                 nsolve += 1
                 r1 = solve_once(prob, op[1])
